@@ -94,6 +94,23 @@ def gen_spec(rnd: random.Random, stratum: str, quick=True) -> dict:
         """a parameter node that depends on the Var item `parent`"""
         if how == "direct":
             return parent
+        if how.startswith("diamond"):
+            # two-level diamond of cached Calcs: A = f(parent), B = f(A) [, B' = f(B)], C = f(B, A) or f(A, B):
+            # C has a shared ancestor reachable through paths of different length; in the order (B, A) the
+            # descendant is listed before its ancestor
+            first = [parent, "vn"] if rnd.random() < 0.2 else parent
+            a = add({"k": "calc", "ins": [first], "kw": [], "kwn": [], "fs": _aff(rnd, 1)})
+            b = add({"k": "calc", "ins": [a], "kw": [], "kwn": [], "fs": _aff(rnd, 1)})
+            if rnd.random() < 0.3:
+                b = add({"k": rnd.choice(["calc", "tcalc"]), "ins": [b], "kw": [], "kwn": [], "fs": _aff(rnd, 1)})
+            ins = [b, a] if how == "diamond_ba" else [a, b]
+            if rnd.random() < 0.25:
+                ins.append(value())
+            c = add({"k": "calc", "ins": ins, "kw": [], "kwn": [], "fs": _aff(rnd, len(ins))})
+            if rnd.random() < 0.3:
+                c = add({"k": "calc", "ins": [c, a] if rnd.random() < 0.5 else [c], "kw": [], "kwn": [], "fs": _aff(rnd, 2)})
+                items[c]["fs"] = _aff(rnd, len(items[c]["ins"]))
+            return c
         first = [parent, "vn"] if how.startswith("vn") else parent
         depth = rnd.randint(1, 3)
         kinds = {"cached": ["calc"], "trans": ["tcalc", "tid"], "vn_cached": ["calc"], "vn_mixed": ["calc", "tcalc"],
@@ -111,7 +128,8 @@ def gen_spec(rnd: random.Random, stratum: str, quick=True) -> dict:
         return i
 
     hows = {"chain_cached": ["cached"], "direct": ["direct"], "value_node_read": ["vn_cached", "vn_mixed"],
-            "transient_chain": ["trans"], "mixed": ["cached", "direct", "vn_cached", "trans", "mixed", "vn_mixed"]}
+            "transient_chain": ["trans"], "diamond": ["diamond_ba", "diamond_ba", "diamond_ab"],
+            "mixed": ["cached", "direct", "vn_cached", "trans", "mixed", "vn_mixed", "diamond_ba", "diamond_ab"]}
     how_pool = hows.get(stratum, hows["mixed"])
 
     nlev = rnd.randint(2, 3 if quick else 5)
@@ -412,8 +430,8 @@ def klass(c):
 # ---------------------------------------------------------------------------------------------
 # cases
 # ---------------------------------------------------------------------------------------------
-STRATA = ["chain_cached", "value_node_read", "direct", "transient_chain", "mixed", "skip", "weak_skipped",
-          "weak_raises", "dirty_start", "mixed"]
+STRATA = ["chain_cached", "value_node_read", "diamond", "direct", "transient_chain", "mixed", "skip", "weak_skipped",
+          "weak_raises", "dirty_start", "diamond", "mixed"]
 if WITH_LOGPROB:
     STRATA = STRATA + ["logprob_param"]
 
@@ -532,6 +550,19 @@ CORPUS = [
 ]
 
 
+CORPUS.append(
+    # seeded C17-4: x -> A -> B, C = f(B, A) (descendant listed before its ancestor), y ~ D(C); auto-update off
+    {"spec": {"items": [_v(3),
+                        {"k": "var", "weak": False, "role": "par", "v": 1,
+                         "dist": {"ins": [0], "kw": [], "kwn": [], "fs": ["aff", 1, [2, 3]], "transient": False, "samp": ["aff", 500, [7, 11]]}},
+                        {"k": "calc", "ins": [1], "kw": [], "kwn": [], "fs": ["aff", 5, [3]]},
+                        {"k": "calc", "ins": [2], "kw": [], "kwn": [], "fs": ["aff", 7, [2]]},
+                        {"k": "calc", "ins": [3, 2], "kw": [], "kwn": [], "fs": ["aff", 1, [100, 1]]},
+                        {"k": "var", "weak": False, "role": "obs", "v": 2,
+                         "dist": {"ins": [4], "kw": [], "kwn": [], "fs": ["aff", 2, [3, 4]], "transient": False, "samp": ["aff", 9, [5, 13]]}}]},
+     "pre": [["auto", False]], "skip": [], "seed": 23})
+
+
 def corpus_cases():
     out = []
     for e in CORPUS:
@@ -561,6 +592,14 @@ def features(c):
                     f.append("cached_node_between")
                 if any(pg.kinds[k] == "T" and not c["order"][k].endswith("_var_value") for k in between):
                     f.append("transient_node_between")
+                for k in between:
+                    ck = [i for i in pg.ins[k] if i in between and pg.kinds[i] == "C"]
+                    for x in range(len(ck)):
+                        for y in range(x + 1, len(ck)):
+                            if pg.kinds[k] == "C" and ck[y] in pg.anc[ck[x]]:
+                                f.append("diamond_descendant_listed_before_ancestor")
+                            elif pg.kinds[k] == "C" and ck[x] in pg.anc[ck[y]]:
+                                f.append("diamond_ancestor_listed_first")
                 for t in ups:
                     # a node on the way reads the value node directly (not through the proxy)
                     if any(t in pg.ins[k] and not c["order"][k].endswith("_var_value") for k in between):
@@ -578,7 +617,7 @@ def generate(ctx):
     while len(cases) < ncases:
         stratum = STRATA[i % len(STRATA)]
         auto_final = (i // len(STRATA)) % 2 == 0 if stratum != "dirty_start" else False
-        if stratum in ("chain_cached", "value_node_read") and (i // len(STRATA)) % 3 != 2:
+        if stratum in ("chain_cached", "value_node_read", "diamond") and (i // len(STRATA)) % 3 != 2:
             auto_final = False
         cases.append(make_case(rnd, ctx.quick, stratum, auto_final, rerun=(i % 5 == 0)))
         i += 1
@@ -625,6 +664,8 @@ def generate(ctx):
             ctx.hist("graph." + f)
         if c["auto"] is False and "cached_node_between" in features(c):
             ctx.hist("F6_stratum.auto_off_cached_between")
+        if c["auto"] is False and "diamond_descendant_listed_before_ancestor" in features(c):
+            ctx.hist("diamond_stratum.auto_off_descendant_first")
         n = len(c["kinds"])
         ctx.hist("nodes." + ("<=12" if n <= 12 else "13-20" if n <= 20 else ">=21"))
         ndraws += len(c["draw_order"])
